@@ -94,7 +94,7 @@ Lemma value_roundtrip re v p :
   inv_val re v -> sval_dom re v = true -> value_plain re v = Ok p -> sigma_of re p = v.
 Proof.
   intros Hi Hd Hp. destruct re.
-  - destruct Hi as [[s ->]| ->]; [|discriminate].
+  - destruct Hi as [s ->].
     simpl in Hp. inversion Hp; subst. simpl. rewrite app_nil_r. reflexivity.
   - destruct v; cbn [inv_val value_plain] in Hi, Hp; try contradiction; inversion Hp; subst; try reflexivity.
     destruct Hi as [t ->]. cbn [sval_dom orb] in Hd. cbn [sigma_of].
@@ -168,22 +168,24 @@ Notation inv_item := (inv_item apply_mods).
 Notation inv := (inv apply_mods).
 
 (* ---------- loading establishes the invariant ---------- *)
-Lemma sigma_of_inv re p : inv_val re (sigma_of re p).
+Lemma sigma_of_inv re p : (re = true -> is_str p = true) -> inv_val re (sigma_of re p).
 Proof.
   unfold inv_val, sigma_of. destruct re.
-  - destruct p; eauto.
-  - destruct p; simpl; eauto.
+  - intros H. specialize (H eq_refl). destruct p; try discriminate. eauto.
+  - intros _. destruct p; simpl; eauto.
 Qed.
 
 Lemma load_item_inv key v i : load_item key v = Ok i -> inv_item i.
 Proof.
   unfold Serialize.load_item. intros H. apply obind_ok in H. destruct H as [[f ms] [Hk H]].
+  destruct (has_mod M_RegularExpression ms && negb (forallb is_str (vals_of v))) eqn:Ere; [discriminate|].
   apply obind_ok in H. destruct H as [t [Ha H]]. inversion H; subst. clear H.
   split; simpl.
   - destruct key as [k|]; [eapply parse_key_field; eauto | inversion Hk; exact I].
   - eexists. split; [reflexivity|]. split; [exact Ha|].
-    apply Forall_forall. intros x Hx. apply in_map_iff in Hx. destruct Hx as [p [<- _]].
-    apply sigma_of_inv.
+    apply Forall_forall. intros x Hx. apply in_map_iff in Hx. destruct Hx as [p [<- Hin]].
+    apply sigma_of_inv. intros Hre. unfold has_re in Hre. rewrite Hre in Ere. simpl in Ere.
+    apply negb_false_iff in Ere. rewrite forallb_forall in Ere. apply Ere. exact Hin.
 Qed.
 
 Lemma mapM_load_items_inv m : forall l,
@@ -214,9 +216,11 @@ Section DetInd.
   Hypothesis Hi : forall l, P (DItems l).
   Hypothesis Hs : forall l, Forall P l -> P (DSubs l).
   Hypothesis Hx : P DMixed.
+  Hypothesis Ho : forall l, P (DItemsOr l).
   Fixpoint det_ind' (d : det T) : P d :=
     match d with
     | DMixed => Hx
+    | DItemsOr l => Ho l
     | DItems l => Hi l
     | DSubs l => Hs l ((fix go (l : list (det T)) : Forall P l :=
                           match l with [] => Forall_nil P | x :: r => Forall_cons x (det_ind' x) (go r) end) l)
@@ -292,6 +296,16 @@ Proof.
   - right. split; [reflexivity | right; discriminate].
 Qed.
 
+Lemma re_values_str re o : forall vs,
+  Forall (inv_val re) o -> mapM (value_plain re) o = Ok vs -> re && negb (forallb is_str vs) = false.
+Proof.
+  destruct re; [|reflexivity]. induction o as [|v o IH]; intros vs Hi Hp.
+  - inversion Hp. reflexivity.
+  - apply mapM_ok_cons in Hp. destruct Hp as [p [ps [Hp [Hps ->]]]]. inversion Hi; subst.
+    destruct H1 as [s ->]. simpl in Hp. inversion Hp; subst. simpl.
+    specialize (IH _ H2 Hps). simpl in IH. exact IH.
+Qed.
+
 Lemma item_reload i p : inv_item i -> dom_item i = true -> item_plain i = Ok p -> reload_pres p = Ok i.
 Proof.
   intros [Hf [o [Ho [Ha Hv]]]] Hd Hp.
@@ -301,10 +315,12 @@ Proof.
   pose proof (values_roundtrip _ _ _ Hv Hd Hvs) as Hrt.
   destruct i as [f ms oo t]. simpl in *. subst oo.
   destruct Hs as [[-> [-> ->]] | [-> _]]; unfold reload_pres, Serialize.load_item.
-  - cbn [obind]. rewrite vals_value. change (has_mod M_RegularExpression []) with (has_re []).
-    rewrite Hrt, Ha. reflexivity.
-  - unfold item_key. simpl. rewrite parse_key_of by exact Hf. cbn [obind]. rewrite vals_value.
-    change (has_mod M_RegularExpression ms) with (has_re ms). rewrite Hrt, Ha. reflexivity.
+  - cbn [obind]. cbv zeta. rewrite vals_value.
+    change (has_mod M_RegularExpression []) with false. cbn [andb].
+    change (has_re []) with false in Hrt. rewrite Hrt, Ha. reflexivity.
+  - unfold item_key. cbn [i_field i_mods]. rewrite parse_key_of by exact Hf. cbn [obind]. cbv zeta. rewrite vals_value.
+    change (has_mod M_RegularExpression ms) with (has_re ms).
+    rewrite (re_values_str _ _ _ Hv Hvs). rewrite Hrt, Ha. reflexivity.
 Qed.
 
 Lemma item_not_none (i : item T) p : dom_item i = true -> item_plain i = Ok p -> is_none p = false.
@@ -460,7 +476,7 @@ Qed.
 (* ---------- nested detections ---------- *)
 Lemma det_plain_not_null (d : det T) y : det_plain d = Ok y -> is_null_def y = false.
 Proof.
-  destruct d as [l|l|]; intros H; [| |discriminate].
+  destruct d as [l|l| |l]; intros H; [| |discriminate|].
   - rewrite det_plain_items in H. apply obind_ok in H. destruct H as [rs0 [_ H]].
     remember (filter (fun p => negb (is_none p)) rs0) as rs eqn:E.
     destruct rs as [|x [|x2 rest]].
@@ -475,11 +491,20 @@ Proof.
       * apply obind_ok in H. destruct H as [md [_ H]]. inversion H. reflexivity.
       * inversion H. reflexivity.
   - rewrite det_plain_subs in H. apply obind_ok in H. destruct H as [rs [_ H]]. inversion H. reflexivity.
+  - cbn [det_plain] in H. apply obind_ok in H. destruct H as [rs0 [_ H]].
+    remember (filter (fun p => negb (is_none p)) rs0) as rs eqn:E.
+    destruct rs as [|x [|x2 rest]].
+    + discriminate.
+    + inversion H; subst y.
+      assert (Hin : In x (filter (fun p => negb (is_none p)) rs0)) by (rewrite <- E; left; reflexivity).
+      apply filter_In in Hin. destruct Hin as [_ Hn]. apply negb_true_iff in Hn.
+      destruct x as [[v|vs]|k v]; try reflexivity. destruct v; try reflexivity. discriminate.
+    + inversion H. reflexivity.
 Qed.
 
 Lemma plain_is_single (d : det T) y : dom d = true -> det_plain d = Ok y -> is_plain y = true -> plain_single d = true.
 Proof.
-  destruct d as [l|l|]; intros Hd H Hp; [| |discriminate].
+  destruct d as [l|l| |l]; intros Hd H Hp; [| |discriminate|discriminate].
   - cbn [dom] in Hd. apply andb_true_iff in Hd. destruct Hd as [Hd _].
     rewrite det_plain_items in H. apply obind_ok in H. destruct H as [rs [Hrs H]].
     rewrite (items_filter_id _ _ Hd Hrs) in H.
@@ -531,7 +556,7 @@ Qed.
 Theorem plain_reload : forall (r : det T) d',
   inv r -> dom r = true -> det_plain r = Ok d' -> load_def d' = Ok r.
 Proof.
-  induction r as [l | l IH |] using det_ind'; intros d' Hi Hd H; [| |discriminate].
+  induction r as [l | l IH | | l] using det_ind'; intros d' Hi Hd H; [| |discriminate|discriminate].
   - cbn [dom] in Hd. apply andb_true_iff in Hd. destruct Hd as [Hd Hk].
     apply items_reload; assumption.
   - cbn [dom] in Hd. apply andb_true_iff in Hd. destruct Hd as [Hd He].
@@ -613,7 +638,7 @@ Qed.
 
 Theorem disabled_fails : forall r : det T, has_disabled r = true -> is_err (det_plain r) = true.
 Proof.
-  induction r as [l | l IH |] using det_ind'; intros H; [| |discriminate].
+  induction r as [l | l IH | | l] using det_ind'; intros H; [| |discriminate|].
   - rewrite det_plain_items. cbn [has_disabled] in H.
     assert (E : is_err (mapM item_plain l) = true).
     { eapply mapM_err_exists; [|exact H]. intros i Hi. unfold item_plain.
@@ -628,6 +653,11 @@ Proof.
       - simpl in H. specialize (IHl H3 H). destruct (det_plain d); [|reflexivity|reflexivity]. simpl.
         revert IHl. destruct (mapM det_plain l); simpl; intros IHl; [discriminate IHl | reflexivity | reflexivity]. }
     revert E. destruct (mapM det_plain l); simpl; intros E; [discriminate E | reflexivity | reflexivity].
+  - cbn [det_plain]. cbn [has_disabled] in H.
+    assert (E : is_err (mapM item_plain l) = true).
+    { eapply mapM_err_exists; [|exact H]. intros i Hi. unfold item_plain.
+      revert Hi. cbv beta. destruct (i_orig i); intros Hi; [discriminate Hi | reflexivity]. }
+    revert E. destruct (mapM item_plain l); simpl; intros E; [discriminate E | reflexivity | reflexivity].
 Qed.
 
 End Main.
